@@ -854,6 +854,34 @@ class Exec:
         i = z3.If(i < 0, n + i, i)
         return z3.If(i < 0, 0, z3.If(i > n, n, i))
 
+    def _known_global(self, name):
+        """is `name` a builtin, a parameter of an enclosing function, or defined at module level of the file under verification?"""
+        import builtins
+        if hasattr(builtins, name) or name in STD_MODULES:
+            return True
+        if not hasattr(self, '_module_names'):
+            names = set()
+            try:
+                from .unit import load_source
+                tree = ast.parse(load_source(self.unit.file, getattr(self.unit, '_override', None)))
+                for x in tree.body:
+                    for t in ast.walk(x) if isinstance(x, (ast.Assign, ast.AnnAssign, ast.AugAssign, ast.Import, ast.ImportFrom, ast.Try, ast.If, ast.With)) else [x]:
+                        if isinstance(t, (ast.FunctionDef, ast.AsyncFunctionDef, ast.ClassDef)):
+                            names.add(t.name)
+                        elif isinstance(t, ast.Name) and isinstance(t.ctx, ast.Store):
+                            names.add(t.id)
+                        elif isinstance(t, ast.alias):
+                            names.add((t.asname or t.name).split('.')[0])
+                # parameters and locals of enclosing functions (free variables of a nested function)
+                for x in ast.walk(tree):
+                    if isinstance(x, (ast.FunctionDef, ast.AsyncFunctionDef)) and any(y is self.fn for y in ast.walk(x)):
+                        names |= {a.arg for a in x.args.posonlyargs + x.args.args + x.args.kwonlyargs} | {a.arg for a in (x.args.vararg, x.args.kwarg) if a}
+                        names |= {t.id for t in ast.walk(x) if isinstance(t, ast.Name) and isinstance(t.ctx, ast.Store)}
+            except Exception:      # noqa: BLE001
+                names = None
+            self._module_names = names
+        return self._module_names is None or name in self._module_names
+
     def ev_JoinedStr(self, e, st):
         hook = getattr(self.unit, 'on_fstring', None)
         if hook:
@@ -870,6 +898,23 @@ class Exec:
 
         # formatting a plain LOCAL whose value is an object of unknown class -- `{e}`, `{x!r}` -- runs that class's __str__ / __repr__ / __format__: user code,
         # which may raise (an exception class whose __str__ formats its args wrongly ...).  Values known to be None / int / bool / float / str format totally.
+        # a plain local read inside a replacement field must be bound (UnboundLocalError otherwise), like any other read
+        if not hasattr(self, '_assigned_locals'):
+            self._assigned_locals = {t.id for x in ast.walk(self.fn) for t in ast.walk(x) if isinstance(x, (ast.Assign, ast.AugAssign, ast.AnnAssign, ast.For, ast.With, ast.NamedExpr))
+                                     and isinstance(t, ast.Name) and isinstance(t.ctx, ast.Store)} if getattr(self, 'fn', None) is not None else set()
+        for part in e.values:
+            if isinstance(part, ast.FormattedValue):
+                for nm in ast.walk(part.value):
+                    if isinstance(nm, ast.Name) and isinstance(nm.ctx, ast.Load) and nm.id in self._assigned_locals and nm.id not in self.globals \
+                            and (nm.id not in st.env or st.env[nm.id] is UNBOUND) and nm.id not in st.cells \
+                            and not any(isinstance(c, (ast.ListComp, ast.GeneratorExp, ast.SetComp, ast.DictComp, ast.Lambda)) for c in ast.walk(part.value)):
+                        self.oblige(st, f'line {getattr(e, "lineno", "?")}: local `{nm.id}` is bound when read (inside an f-string)', False)
+                        return []
+                    if isinstance(nm, ast.Name) and isinstance(nm.ctx, ast.Load) and nm.id not in self._assigned_locals and nm.id not in st.env and nm.id not in st.cells \
+                            and nm.id not in self.globals and not self._known_global(nm.id) \
+                            and not any(isinstance(c, (ast.ListComp, ast.GeneratorExp, ast.SetComp, ast.DictComp, ast.Lambda)) for c in ast.walk(part.value)):
+                        self.oblige(st, f'line {getattr(e, "lineno", "?")}: name `{nm.id}` is defined when read (inside an f-string)', False)
+                        return []
         user_vals = []
         for part in e.values:
             if getattr(self.unit, 'user_format_total', False):
